@@ -215,6 +215,70 @@ theorem connect_unary_headers_roundtrip (c : HConn) (cfg : CCfg) (st : Bytes) (p
   · rw [split_header_vals _ (unaryBase_wf c p) x hx, base]
   · rw [split_header_vals _ (Header.set_wf _ _ _ (unaryBase_wf c p)) x hx, Header.vals_set_ne _ _ _ _ hres.2.2, base]
 
+/-- **connect_unary_error_metadata**: a unary Connect handler fails with a coded error: every
+    value it put into its response headers, every value attached to the error and every value it
+    put into its trailers is in the metadata of the error the client gets, under its key, in
+    that order — and the code, message and details are the handler's. -/
+theorem connect_unary_error_metadata (c : HConn) (cfg : CCfg) (st : Bytes) (p : HProg) (e : CErr)
+    (hr : p.result = some (.coded e)) (h0 : e.code ≠ 0)
+    (hH : p.header.wf) (hM : e.md.wf) (hT : p.trailer.wf)
+    (hnpH : ∀ q ∈ p.header, hasPrefix Gen.connectUnaryTrailerPrefix q.1 = false)
+    (hnpM : ∀ q ∈ e.md, hasPrefix Gen.connectUnaryTrailerPrefix q.1 = false)
+    (henc : encodingKnown cfg ((serveConnectUnary c p).header.get Gen.hdrConnectUnaryEncoding) = true)
+    (k : Bytes) (hk : hasPrefix Gen.connectUnaryTrailerPrefix k = false)
+    (hres : k ≠ Gen.hdrContentType ∧ k ≠ Gen.hdrConnectUnaryAcceptEncoding) :
+    ∃ err, (clientConnectUnary cfg st (serveConnectUnary c p)).result = some err ∧
+      err.code = e.code ∧ err.msg = e.msg ∧ err.details = e.details ∧
+      err.md.vals k = p.header.vals k ++ e.md.vals k ++ p.trailer.vals k := by
+  have hp := hasPrefix_append Gen.connectUnaryTrailerPrefix k
+  -- the response
+  have hresp : (serveConnectUnary c p).header =
+      (addTrailerPrefixed (mergeHeaders (mergeHeaders [(Gen.hdrContentType, [c.contentType]),
+        (Gen.hdrConnectUnaryAcceptEncoding, [c.names])] p.header) e.md) p.trailer).set Gen.hdrContentType applicationJSON := by
+    simp [serveConnectUnary, hr, toWire, wireOf]
+  have hstatus : (serveConnectUnary c p).status ≠ 200 := by
+    have := (C02.unary_connect_status c p _ hr).2
+    omega
+  have hbody : (serveConnectUnary c p).body = [.errorJSON { code := e.code, msg := e.msg, details := e.details }] := by
+    simp [serveConnectUnary, hr, toWire, wireOf]
+  have hdec := C02.connect_unary_error_decoded cfg st (serveConnectUnary c p) _ hstatus hbody h0 henc
+  refine ⟨_, hdec, rfl, rfl, rfl, ?_⟩
+  -- well-formedness of the maps involved
+  have hinner : (mergeHeaders (mergeHeaders [(Gen.hdrContentType, [c.contentType]),
+      (Gen.hdrConnectUnaryAcceptEncoding, [c.names])] p.header) e.md).wf := by
+    apply mergeHeaders_wf; apply mergeHeaders_wf
+    simp [Header.wf, reserved_no_prefix.2.2.2]
+  have hHwf : (serveConnectUnary c p).header.wf := by
+    rw [hresp]; exact Header.set_wf _ _ _ (addTrailerPrefixed_wf _ _ hinner)
+  have hs1 : (splitTrailerPrefixed (serveConnectUnary c p).header).1.wf := by
+    unfold splitTrailerPrefixed; rw [split_eq]; exact foldl_put_wf id _ [] Header.nil_wf
+  have hs2 : (splitTrailerPrefixed (serveConnectUnary c p).header).2.wf := by
+    unfold splitTrailerPrefixed; rw [split_eq]; exact foldl_put_wf _ _ [] Header.nil_wf
+  simp only
+  rw [vals_mergeHeaders _ _ hs2, vals_copy _ hs1, split_header_vals _ hHwf k hk, split_trailer_vals _ hHwf k, hresp]
+  rw [Header.vals_set_ne _ _ _ _ hres.1, Header.vals_set_ne _ _ _ _ (ne_of_prefix hp reserved_no_prefix.1)]
+  -- headers
+  rw [addTrailerPrefixed_other _ _ k hk, vals_mergeHeaders _ _ hM, vals_mergeHeaders _ _ hH]
+  have hh0 : Header.vals [(Gen.hdrContentType, [c.contentType]), (Gen.hdrConnectUnaryAcceptEncoding, [c.names])] k = [] := by
+    simp [Header.vals, hres.1, hres.2]
+  rw [hh0, List.nil_append]
+  -- trailers
+  congr 1
+  by_cases hkt : k ∈ p.trailer.map (·.1)
+  · exact addTrailerPrefixed_trailer _ _ hT k hkt
+  · rw [addTrailerPrefixed_absent _ _ k hkt, vals_mergeHeaders _ _ hM, vals_mergeHeaders _ _ hH,
+      Header.vals_of_not_mem p.trailer k hkt]
+    have noPfx : ∀ (h : Header), (∀ q ∈ h, hasPrefix Gen.connectUnaryTrailerPrefix q.1 = false) →
+        Header.vals h (Gen.connectUnaryTrailerPrefix ++ k) = [] := by
+      intro h hh
+      apply Header.vals_of_not_mem
+      intro hm
+      simp only [List.mem_map] at hm
+      obtain ⟨q, hq, eq⟩ := hm
+      have := hh q hq
+      rw [eq, hp] at this; cases this
+    rw [noPfx p.header hnpH, noPfx e.md hnpM]
+    simp [Header.vals, ne_of_prefix hp reserved_no_prefix.1, ne_of_prefix hp reserved_no_prefix.2.1]
 /-! non-vacuity -/
 example : splitTrailerPrefixed (addTrailerPrefixed [([88], [[1]])] [([89], [[2], [3]])]) = ([([88], [[1]])], [([89], [[2], [3]])]) := by decide
 
